@@ -128,7 +128,11 @@ def witnesses(name, cls):
     own = own_instance(cls, name)
     n = len(own)
     out = [("own", own), ("own-wrapped", rm.rot_right(own, n // 2)),
-           ("own-long", long_instance(cls, name, False)), ("own-long-extra-site", long_instance(cls, name, True))]
+           ("own-long", long_instance(cls, name, False)), ("own-long-extra-site", long_instance(cls, name, True)),
+           # the same texts handed over as plain SeqRecords: declared linear (the wrapped one cannot be read then), and circular
+           # in another spelling
+           ("lin:own", own), ("lin:own-wrapped", rm.rot_right(own, n // 2)), ("LIN:own-wrapped", rm.rot_right(own, n // 2)),
+           ("sr:own-wrapped", rm.rot_right(own, n // 2))]
     fam = family(name)
     for other in gen.kit_classes():
         if other.__module__ == fam or (fam.endswith("plant") and other.__module__.endswith("moclo")) or \
@@ -140,7 +144,16 @@ def witnesses(name, cls):
 
 def answers(cls, wits):
     out = {}
+    from Bio.SeqRecord import SeqRecord
     for wid, s in wits:
+        plain = {"lin": "linear", "LIN": "LINEAR", "sr": "Circular"}.get(wid.split(":", 1)[0]) if ":" in wid else None
+        if plain and not wid.startswith("inst:"):
+            e = cls(SeqRecord(Seq(s), id="w", annotations={"topology": plain}))
+            try:
+                out[wid] = [True, str(e.overhang_start()), str(e.overhang_end())] if e.is_valid() else [False]
+            except Exception as ex:
+                out[wid] = ["raises", type(ex).__name__]
+            continue
         e = cls(CircularRecord(Seq(s), id="w"))
         try:
             v = e.is_valid()
